@@ -7,7 +7,6 @@ import (
 	"strconv"
 	"strings"
 
-	"google.golang.org/grpc"
 	"google.golang.org/grpc/codes"
 	"google.golang.org/grpc/metadata"
 	"google.golang.org/grpc/status"
@@ -16,34 +15,6 @@ import (
 func init() {
 	vfHarnesses["VerifH_entry"] = VerifH_entry
 	vfHarnesses["VerifH_grpcweb"] = VerifH_grpcweb
-}
-
-// vfMuxAllFake: as vfMuxWith but every built-in media type is served by the recording codec, so no
-// request can reach protobuf-go's real codecs with a fake message.
-func vfMuxAllFake(opts ...MuxOption) (*Mux, *vfServer, *fakeCodec) {
-	in := schemaRoute()
-	out := newFakeMD("vf.Resp", strField("r"))
-	md := &fakeMethod{full: "vf.S.M0", in: in, out: out, opts: &fakeOpts{rule: vfHTTPRule("POST", "/aa/{f}")}}
-	svc := &fakeSvc{full: "vf.S", methods: &fakeMethodList{list: []*fakeMethod{md}}}
-	rec := &fakeCodec{name: "fake"} // ONE codec: codecsByName is keyed by Name()
-	all := append([]MuxOption{
-		FilesOption(vfRegistry(svc)),
-		CodecOption("application/x", rec),
-		CodecOption("application/json", rec),
-		CodecOption("application/protobuf", rec),
-		CodecOption("application/octet-stream", rec),
-	}, opts...)
-	mux, err := NewMux(all...)
-	if err != nil {
-		vfFail("NewMux failed")
-	}
-	srv := &vfServer{in: in, out: out, reply: newFakeMsg(out)}
-	srv.reply.payload = []byte("REPLY")
-	sd := &grpc.ServiceDesc{ServiceName: "vf.S", Methods: []grpc.MethodDesc{{MethodName: "M0", Handler: vfUnaryHandler}}}
-	if err := mux.registerService(sd, srv); err != nil {
-		vfFail("registerService failed: " + err.Error())
-	}
-	return mux, srv, rec
 }
 
 // VerifH_entry (C09): any request - HTTP version, method, content type, Accept, path, body - gets
